@@ -942,7 +942,7 @@ class CanonInterp(Interp):
 
     def _is_slot(self, e):
         e = strip_paren(e)
-        return e["t"] == "Index" and strip_paren(e["expr"])["t"] == "Field" and strip_paren(e["expr"])["member"] == "insts" and path_name(strip_paren(e["index"])) == "i"
+        return e["t"] == "Index" and strip_paren(e["expr"])["t"] == "Field" and strip_paren(e["expr"])["member"] == "insts" and path_name(strip_paren(e["index"])) == self.loop_var
 
     def assign_place(self, place, value, env, node):
         if self._is_slot(place):
@@ -1092,9 +1092,10 @@ def computed_canonical(ast):
                                 locs.append(LocV("Imm", ImmV("C")))
                         slot = Slot(InstrV(op, locs))
                         it = CanonInterp(slot, {c: perm[c] for c in range(ncls)})
+                        it.loop_var = loops[0]["pat"]["name"] if loops[0]["pat"]["t"] == "PIdent" else "i"
                         env = Env()
                         env.bind("self", "self")
-                        env.bind("i", Opaque("i"))
+                        env.bind(it.loop_var, Opaque("i"))
                         it.exec_block(body, env)
                         n += 1
                         ins = slot.instr
